@@ -1229,13 +1229,21 @@ func EdgeP(pred AtomPred) Sel {
 			if !ok {
 				return
 			}
-			ca := CondAtom(ifi.Cond)
 			b := ifi.Block()
-			if pred.F(ca) {
+			// the facts an edge establishes include those behind a boolean phi (&&, || evaluated as a value)
+			has := func(val bool) bool {
+				for _, f := range EdgeFactsOf(ifi, val) {
+					if f.If == ifi && pred.F(f.Atom) {
+						return true
+					}
+				}
+				return false
+			}
+			if has(true) {
 				if f := firstInstr(b.Succs[0]); f != nil {
 					out = append(out, f)
 				}
-			} else if pred.F(ca.Negate()) {
+			} else if has(false) {
 				if f := firstInstr(b.Succs[1]); f != nil {
 					out = append(out, f)
 				}
